@@ -5,7 +5,7 @@ REPO=${1:-/repo}; shift
 MODS=${@:-$(cat /w/out/gomods.txt)}
 OUT=$(mktemp -d /tmp/bl.XXXX)
 for m in $MODS; do (cd $REPO/$m && GOFLAGS=-mod=mod GOPROXY=off go test -json -vet=off -count=1 -timeout 25m ./... 2>/dev/null) ; done > $OUT/run.json
-python3 - "$OUT/run.json" $MODS <<'PY'
+BL_REPO=$REPO python3 - "$OUT/run.json" $MODS <<'PY'
 import json,sys
 passed=set()
 for l in open(sys.argv[1]):
@@ -23,6 +23,30 @@ def inmods(t):
     return top in mods
 want={t for t in stable if inmods(t)}
 missing=sorted(want-passed)
+# timing-dependent tests can fail under machine load: re-run only the missing top-level tests (up to 3 times)
+import subprocess,os,re
+if missing and len(missing) <= 40:
+    repo=os.environ.get('BL_REPO','/repo')
+    bypkg={}
+    for t in missing:
+        pkg,name=t.split('::'); bypkg.setdefault(pkg,set()).add(name.split('/')[0])
+    for attempt in range(3):
+        still=set(missing)-passed
+        if not still: break
+        for pkg,names in bypkg.items():
+            rel=pkg.replace('github.com/redis/rueidis','.',1)
+            moddir=repo if rel=='.' or rel.startswith('./internal') or rel.startswith('./rueidislock') else os.path.join(repo,rel.split('/')[1])
+            pk='.' if moddir!=repo or rel=='.' else rel
+            if moddir!=repo:
+                sub=rel.split('/',2)
+                pk='./'+sub[2] if len(sub)>2 else '.'
+            out=subprocess.run(['go','test','-json','-vet=off','-count=1','-run','^('+'|'.join(sorted(re.escape(n) for n in names))+')$',pk],cwd=moddir,capture_output=True,text=True,env=dict(os.environ,GOFLAGS='-mod=mod',GOPROXY='off')).stdout
+            for l in out.splitlines():
+                try: e=json.loads(l)
+                except: continue
+                if e.get('Action')=='pass' and e.get('Test'): passed.add(e['Package']+'::'+e['Test'])
+    missing=sorted(want-passed)
+    print('(missing tests were re-run in isolation to rule out load-dependent flakes)')
 print('stable in scope',len(want),'passed',len(want&passed),'missing',len(missing))
 for t in missing[:40]: print('  MISSING',t)
 sys.exit(1 if missing else 0)
